@@ -36,7 +36,11 @@
   * `mutate` is a pairing change on the loop thread (`State.add/remove_paired_client`; version + 1)
     followed, in the same loop callback, by `async_persist()` = a new job submitted to the
     executor.  `spawn` is a save job that is not preceded by a change (`add_accessory`,
-    `config_changed`, `async_start`).
+    `config_changed`, `async_start`).  `change` is a bare state change with no save submitted after
+    it: what a call site does that submits its save *before* changing the state (`spawn; change`)
+    or not at all.  The repaired code has no such site (tied by the harness's `public` stream);
+    the label exists to state what the order "change, then submit" buys (`C15_converge_after_save`
+    vs `C15_save_before_change_counterexample`).
   * Granularity: one step per I/O call of the save; the state read at `snapshot` is a single step
     (a pairing change landing between the three dict reads of `encoder.persist` is not modelled),
     `os.replace` is atomic and a failing call has no effect (POSIX contract, trusted).
@@ -77,13 +81,15 @@ structure Sys where
   crashed : Bool
 
 inductive Label where
-  | mutate | spawn | adv (j : Nat) | fault (j : Nat) | crash
+  | mutate | spawn | change | adv (j : Nat) | fault (j : Nat) | crash
   deriving DecidableEq, Repr
 
-/-- a schedule step without fault and crash -/
+/-- a schedule step that is neither a fault, nor a crash, nor a state change for which no save is
+    submitted afterwards (`change`) -/
 def Label.quiet : Label → Bool
   | .fault _ => false
   | .crash => false
+  | .change => false
   | _ => true
 
 def initSys (init : Option Content) : Sys :=
@@ -143,6 +149,7 @@ def step (locked : Bool) (snap : Nat → Content) (s : Sys) (l : Label) : Option
   match l with
   | .mutate => some (spawn { s with ver := s.ver + 1 })
   | .spawn => some (spawn s)
+  | .change => some { s with ver := s.ver + 1 }
   | .adv j => adv locked snap s j
   | .fault j => fault s j
   | .crash => some { s with crashed := true }
